@@ -131,6 +131,7 @@ func c55(c *Ctx) {
 				}
 				c.Expect(okEdge, p.Instrs[len(p.Instrs)-1], f, "prefix-stops-only-at-first-entry-that-does-not-fit", "the fitting-prefix loop is left on an edge that is not 'entry size > remaining limit' (an entry that fits exactly must be kept; an exempt key never ends the prefix)")
 			}
+			nb = len(breakArms(header))
 			c.Expect(nb == 1, st, f, "one-prefix-stop", fmt.Sprintf("expected exactly one early exit from the fitting-prefix loop, found %d", nb))
 		}
 		// truncated flag
